@@ -16,6 +16,7 @@ CONSTANTS W,            \* number of writer threads
           Cap,          \* writes the memtable holds before it must be switched
           L0Stop,       \* level-0 file count at which writers stop
           L0Compact,    \* level-0 file count at which a compaction is wanted
+          ScheduleAtOpen, \* TRUE: as the code (maybe_schedule_compaction at the end of ldb_open); FALSE shows the hazard
           WithClose,    \* a closer thread calls close once all writers are done
           SignalHead,   \* FALSE: the leader forgets to signal the new head of the queue        (seeded)
           BcastAfterBg, \* FALSE: the background call forgets to broadcast when it finishes     (seeded)
@@ -32,8 +33,10 @@ Free == 0
 QHead == IF queue = <<>> THEN 0 ELSE queue[1]
 
 Init == /\ pc = [w \in Writers |-> "idle"] /\ mu = Free /\ queue = <<>> /\ done = [w \in Writers |-> FALSE]
-        /\ cvWait = {} /\ bgWait = {} /\ lastSeq = 0 /\ memSeq = 0 /\ memUsed = 0 /\ hasImm = FALSE /\ l0 = 0
-        /\ bgSched = FALSE /\ shutting = FALSE /\ grp = [w \in Writers |-> <<>>] /\ assigned = [w \in Writers |-> 0]
+        /\ cvWait = {} /\ bgWait = {} /\ lastSeq = 0 /\ memSeq = 0 /\ memUsed = 0 /\ hasImm = FALSE
+        \* the database may be opened with any level-0 backlog (a big log recovered with a small write buffer); ldb_open ends
+        \* with ldb_maybe_schedule_compaction, so background work is already scheduled when the backlog asks for it
+        /\ l0 \in 0..L0Stop /\ bgSched = (ScheduleAtOpen /\ l0 >= L0Compact) /\ shutting = FALSE /\ grp = [w \in Writers |-> <<>>] /\ assigned = [w \in Writers |-> 0]
         /\ left = [w \in Writers |-> Calls] /\ bpc = "idle" /\ cpc = "idle"
 
 Lock(t) == mu = Free /\ mu' = t
